@@ -296,6 +296,13 @@ def r08_5_shared(repo: Repo, rep: Report):
     from hsa.rules.c01 import r01_4_modelling_obligations
 
     r01_4_modelling_obligations(repo, rep)
+    # the rollback of a failed sub-call restores each store from its own snapshot (C09 R09.1); vm.etch keeps the
+    # account's storage (C14 R14.2)
+    from hsa.rules.c09 import r09_1_snapshot_restore
+    from hsa.rules.c14 import r14_2_selector_effect_table
+
+    r09_1_snapshot_restore(repo, rep)
+    r14_2_selector_effect_table(repo, rep)
 
 
 RULES = [r08_5_shared, r08_1_precomputed_tables, r08_2_decode_siblings, r08_3_load_store_agreement, r08_4_transient]
